@@ -805,6 +805,15 @@ class SliceIndexer(ShapedSliceIndexer):
         if slc.stop is None and slc.step < 0:  # special backwards indexing case
             self._shaped_inst = \
                 ShapedSliceIndexer(slc)
+        elif slc.step < 0:  # backwards indexing with a specified stop
+            start, stop, step = slc.indices(self._src_shape[0])
+            # 'indices' uses -1 to mean 'one before the first entry', but a slice would
+            # interpret that as the last entry.
+            if start < 0:
+                start = stop = 0  # nothing is selected
+            elif stop < 0:
+                stop = None
+            self._shaped_inst = ShapedSliceIndexer(slice(start, stop, step))
         elif (slc.start is not None and slc.start < 0) or slc.stop is None or slc.stop < 0:
             self._shaped_inst = \
                 ShapedSliceIndexer(slice(*self._slice.indices(self._src_shape[0])))
